@@ -7,7 +7,26 @@ Import ListNotations.
 Definition check_case : wcase -> bool := wcheck.
 
 (* a fault or an unsatisfied required point fails the start with an error, no runner runs; optional points never fail *)
-Definition oracle_case (c : wcase) : bool := oracle_clean_outcome c && oracle_faults c && oracle_points c.
+Definition oracle_base (c : wcase) : bool := oracle_clean_outcome c && oracle_faults c.
+
+(* post-processor components are eagerly created components too, so every eager holder is examined.  On the
+   unchanged tree this fails for the components created in PrepareComponents before the built-in wire /
+   further-matching processors are active — a user post-processor component and what it requests —: their points
+   are populated by the processors active at that moment only, required points are not examined (KF-C05a). *)
+Definition oracle_case (c : wcase) : bool :=
+  oracle_base c && match bad_holders c with [] => true | _ :: _ => false end.
+
+(* cases that fail ONLY in the class of KF-C05a: every offending holder was created during PrepareComponents; or
+   the start panicked and such a holder has a by-name point naming a component that does not exist (the nil
+   candidate is removed by the further-matching processor, which is not active yet: populateComponent then
+   dereferences it) *)
+Definition kf_c05a_case (c : wcase) : bool :=
+  (oracle_base c && match bad_holders c with [] => false | l => forallb (early_created c) l end)
+  || (outcome_eqb (ob_outcome (w_obs c)) OPanic
+      && existsb (fun h => early_created c h
+                           && existsb (fun kp => match pt_sel (snd kp) with SByName None => true | _ => false end)
+                                      (points_of c h)) (all_names c)).
+Definition kf_c05a (cs : list wcase) : list nat := map w_id (filter kf_c05a_case cs).
 
 Definition nontrivial (c : wcase) : bool := negb (no_faults c) || negb (all_satisfiable c).
 
